@@ -18,7 +18,8 @@ from harness import absval, core, repo
 from harness.repo import Cell
 
 # node k (1-based) -> (sheet index, col0, row0); nodes 1..3 are contiguous in column A of S1, nodes 6..7 in row 1 across the Z / AA boundary
-POS = {1: (0, 0, 0), 2: (0, 0, 1), 3: (0, 0, 2), 4: (1, 1, 0), 5: (1, 1, 1), 6: (0, 25, 0), 7: (0, 26, 0), 8: (1, 0, 3)}     # 6, 7: Z1 and AA1
+# nodes 4, 5 have the ADDRESSES of nodes 1, 2 on the other sheet (A1, A2): a cell is identified by sheet and address, not by its address alone
+POS = {1: (0, 0, 0), 2: (0, 0, 1), 3: (0, 0, 2), 4: (1, 0, 0), 5: (1, 0, 1), 6: (0, 25, 0), 7: (0, 26, 0), 8: (1, 2, 3)}     # 6, 7: Z1 and AA1
 TITLES = ['S1', "Sh 2"]
 PRIMES = {1: 2, 2: 3, 3: 5, 4: 7, 5: 11, 6: 13, 7: 17, 8: 19}
 MEMBER = re.compile(r'^    def (_\d+_\d+_\d+)\(self\):', re.M)
@@ -63,8 +64,8 @@ def formula(n, deps, salt):
         f = salt + i * 3 + n
         m = (salt + i + n) % 6
         if d == 8 and m in (3, 4):
-            # node 8 is the only stored cell of column A of the second sheet (row 4 of a two-column sheet): the whole column mentions it alone
-            terms.append("SUM('Sh 2'!A:A)" if own != 1 or m == 3 else 'SUM(A:A)')
+            # node 8 is the only stored cell of column C of the second sheet (row 4 of a three-column sheet): the whole column mentions it alone
+            terms.append("SUM('Sh 2'!C:C)" if own != 1 or m == 3 else 'SUM(C:C)')
         elif m == 0:
             terms.append(f'IF({ref(d, own, f)}>0,{ref(d, own, f + 1)},1)')
         elif m == 1:
